@@ -29,6 +29,7 @@ def make_machine(mod, job, mode='real'):
     m.decimal_literals = bool(job.get('decimal_literals', False)) and mode == 'real'
     import llsym.terms as _t
     _t.ROUND_CONCRETE[0] = bool(job.get('round_concrete', False)) and mode == 'real'
+    _t.REAL_UFS[0] = bool(job.get('real_ufs', False))
     hook = job.get('machine_hook')
     if hook:
         _PROP['hooks'][hook](m, job)
@@ -194,10 +195,19 @@ def find_witness(m, divprem, job):
     if any(t.sort != 'R' for t in names):
         return None, None, conds
     from .inputs import hname
+    pts = job.get('witness_points') or []
     for approx in (False, True):
-        for attempt in range(8):
+        for attempt in range(-len(pts), 8):
             env = {}
+            if attempt < 0 and not approx and any(isinstance(v, float) for v in pts[attempt].values()):
+                continue
+            if attempt < 0:
+                # explicit candidate points of the job (e.g. points of the unit circle for (sin theta, cos theta) symbols);
+                # all their entries are kept so that symbols occurring only in obligations get the intended value too
+                env = {k: (v if isinstance(v, float) else Fraction(v)) for k, v in pts[attempt].items()}   # strings like '4/5' are exact
             for t in names:
+                if t.args[0] in env:
+                    continue
                 h = hname(t.args[0], 7919 * attempt + 13)
                 if attempt % 2 == 0:
                     v = Fraction(1, 2) + Fraction((h >> 40) % 513, 512)
@@ -216,6 +226,11 @@ def find_witness(m, divprem, job):
             except KeyError:
                 break
     return None, None, conds
+
+
+def _t_real_ufs():
+    import llsym.terms as _t
+    return _t.REAL_UFS[0]
 
 
 def refute_by_evaluation(goals, env, approx=False, all_syms_seed=0, conds=()):
@@ -246,7 +261,7 @@ def refute_by_evaluation(goals, env, approx=False, all_syms_seed=0, conds=()):
             for t in cone:
                 if t.op == 'sym':
                     lines.append(f'(= {t.args[0]} {smt.num(env[t.args[0]], t.sort)})')
-                elif t.op == 'uf' and t.args[0] != 'sqrt' and not (approx and t.args[0] == 'exp'):
+                elif t.op == 'uf' and t.args[0] != 'sqrt' and not (approx and (t.args[0] == 'exp' or (_t_real_ufs() and t.args[0] in ('sin', 'cos', 'tanh', 'atan', 'log')))):
                     lines.append(f'(= t{t.id} {smt.num(ufv[t.id], "R")})')
             out[i] = (lines, {t.args[0]: str(env[t.args[0]]) for t in cone if t.op == 'sym'})
     return out
@@ -508,7 +523,13 @@ def _job_worker(idx):
                 bid = len(summary['batches'])
                 f = os.path.join(workdir, f'p{pid}_b{bid}.smt2')
                 open(f, 'w').write(text)
-                summary['batches'].append(dict(path=pid, kind='witness' if wit else 'prop', file=f, logic=logic, ndefs=nd, hinted=hinted,
+                f_free = None
+                if hinted:
+                    # the same obligation without the pinned point: an 'unsat' on the pinned query says nothing about other points
+                    t_free, _, _ = smt.build(ass, goals)
+                    f_free = os.path.join(workdir, f'p{pid}_b{bid}_free.smt2')
+                    open(f_free, 'w').write(t_free)
+                summary['batches'].append(dict(path=pid, kind='witness' if wit else 'prop', file=f, file_free=f_free, logic=logic, ndefs=nd, hinted=hinted,
                                                hint_env=hints[key[1]][1] if hinted else None, cap=(15 if hinted else None),
                                                goals=[dict(tag=ob['tag'], k=ob['k'], kind=ob['kind'], extra=ob.get('extra'), sides=_sides(ob)) for ob, g in chunk]))
         if getattr(m, 'omp', None) is not None and m.omp.mode == 'race' and pr.outcome not in ('engine-error', 'infeasible'):
@@ -660,6 +681,13 @@ def solve_batch(b, quick):
                     if n == 1 and a2[0] == 'sat':
                         raw_model = r2
         solver = primary + '+' + other
+    if b.get('hinted') and b.get('file_free') and any(a == 'unsat' for a in ans):
+        # the pinned point does not violate the obligation after all (a numeric point, or pins the axioms reject):
+        # decide the obligation itself, unpinned, under the ordinary cap
+        r = solve_batch(dict(b, file=b['file_free'], hinted=False, file_free=None, cap=None), quick)
+        r['wall'] += wall
+        r['pin_rejected'] = True
+        return r
     return dict(answers=ans, wall=wall, solver=solver, raw_model=raw_model)
 
 
